@@ -65,7 +65,7 @@ fn links_ok(expr: &str) -> bool {
 }
 
 pub fn run(ctx: &Ctx) -> Report {
-    let mut rep = Report::new("every ordered pair and every ordered triple (both bracketings) of the link family assembled with debug symbols; for each successful link: every address that had a source line in its own file must map to a line of the combined source with the same text (and no new mappings appear); every label's get_label_source span must cover a spelling of the label in the combined source. non-trivial = successful link");
+    let mut rep = Report::new("every ordered pair and every ordered triple (both bracketings) of the link family assembled with debug symbols; for each successful link: every address that had a source line in its own file must map to a line of the combined source with the same text (and no new mappings appear); every label's get_label_source span must cover a spelling of the label in the combined source. Plus the text-boundary family: 3 files (definer, user, local code) whose texts carry every combination of 8 leading/trailing affixes (nothing, LF, CRLF, blanks, blank lines, comments), linked as ordered pairs and triples folded from either side, the linked object also read back through both file formats: same two checks. non-trivial = successful link");
     let n = fam().objs.len() as u64;
     let r = sweep(ctx, n * n + n * n * n * 2, 32, |k, acc| {
         let e = if k < n * n { format!("{} {} L", k / n, k % n) } else { let k = k - n * n; let (a, b, c) = (k / (2 * n * n), k / (2 * n) % n, k / 2 % n); if k % 2 == 0 { format!("{a} {b} L {c} L") } else { format!("{a} {b} {c} L L") } };
@@ -75,8 +75,12 @@ pub fn run(ctx: &Ctx) -> Report {
         if let Some((sig, d)) = check(&e) { acc.violation(sig, e, d); }
     });
     rep.absorb(r);
+    super::linksrc::run_for(ctx, &mut rep, "C22");
     rep.bound("family_size", Json::i(n));
     rep.require(rep.acc.nontrivial > 5000, "successful links explored");
     rep
 }
-pub fn replay(case: &str) -> Option<String> { check(case).map(|x| format!("[{}] {}", x.0, x.1)) }
+pub fn replay(case: &str) -> Option<String> {
+    if case.starts_with("ls:") { return super::linksrc::replay_for("C22", case); }
+    check(case).map(|x| format!("[{}] {}", x.0, x.1))
+}
